@@ -26,7 +26,8 @@ MOD = "vf.checks.c13"
 PROBES = ["foo", "kfoo", "pc", "kpc", "Mpc", "m", "km", "Msun", "yr", "foo*pc/yr", "g", "K", "degC", "qux", "kqux", "code_length", "Mfoo", "J", "mJ", "foo**2"]
 CREATE = ["plain", "plain_foo3", "plain_foo3", "lut_copy", "from_json", "unpickle", "deepcopy", "unit_copy_deep", "cgs", "no_defaults_json"]
 OPS = ["add_foo", "add_foo_other", "add_qux_prefixable", "modify_foo", "modify_pc", "remove_pc", "remove_foo", "construct", "arith", "add_symbols", "add_constants",
-       "unit_system", "pickle_roundtrip", "json_roundtrip", "mixed_mul", "mixed_add", "default_modify", "default_remove", "deepcopy_array", "convert_custom", "define_unit"]
+       "unit_system", "pickle_roundtrip", "json_roundtrip", "mixed_mul", "mixed_add", "default_modify", "default_remove", "deepcopy_array", "convert_custom", "define_unit",
+       "fork_deepcopy", "fork_pickle", "fork_array_deepcopy", "define_on_default_copy"]
 _N = itertools.count(1)
 
 
@@ -77,6 +78,7 @@ def default_snapshot():
     q = unyt.unyt_quantity
     snap["conversions"] = (float(q(1.0, "kpc").to("m").v), float(q(1.0, "Msun").to("g").v), float(q(1.0, "mile").to("km").v), float(q(1.0, "yr").to("s").v),
                            float(q(300.0, "K").to("degC").v), float((q(2.0, "pc") * q(3.0, "Msun") / q(1.0, "yr")).in_mks().v), float(q(1.0, "J").in_cgs().v))
+    snap["namespace-size"] = tuple(len([n for n, v in vars(mod).items() if not n.startswith("_") and isinstance(v, (unyt.Unit, unyt.unyt_quantity))]) for mod in (unyt, unyt.unit_symbols))
     snap["digest"] = digest(DR, deep=False)
     return snap
 
@@ -139,6 +141,33 @@ def apply(op, i, j, regs, x):
         r.remove("foo")
     elif op == "define_unit":
         unyt.define_unit(f"vfd{next(_N)}", unyt_quantity(2.0, "m"), registry=r)
+    elif op in ("fork_deepcopy", "fork_pickle", "fork_array_deepcopy"):
+        # registry j is replaced by a deep copy of registry i taken NOW (after whatever i has parsed and memoised so far);
+        # from here on the two are separate registries
+        if i == j:
+            return set(), None
+        if op == "fork_deepcopy":
+            regs[j] = copy.deepcopy(r)
+        elif op == "fork_pickle":
+            regs[j] = pickle.loads(pickle.dumps(unyt_array([1.0, 2.0], "pc*Msun/yr", registry=r))).units.registry
+        else:
+            regs[j] = copy.deepcopy(unyt_array([1.0, 2.0], "kpc", registry=r)).units.registry
+        if regs[j] is r or regs[j].lut is r.lut:
+            return set(), ("fork-shares-table:" + op, "")
+        acted = {j}
+    elif op == "define_on_default_copy":
+        # private copies of the *default* registry are private: defining a unit there changes neither the unyt namespace nor the default registry
+        priv = [copy.deepcopy(DR), pickle.loads(pickle.dumps(unyt.kpc)).registry, (unyt.pc * unyt.g).units.copy(deep=True).registry if hasattr(unyt.pc * unyt.g, "units") else (unyt.pc * unyt.g).copy(deep=True).registry][x % 3]
+        name = f"vfpriv{next(_N)}"
+        unyt.define_unit(name, unyt_quantity(2.0, "m"), registry=priv)
+        if hasattr(unyt, name):
+            return set(), ("define_unit-on-private-copy-exported-into-unyt-namespace", name)
+        try:
+            Unit(name)
+            return set(), ("define_unit-on-private-copy-reached-default-registry", name)
+        except Exception:
+            pass
+        acted = set()
     elif op == "construct":
         for s in ("kfoo", "Mfoo", "kpc", "Mpc", "foo*pc/yr", "mJ", "kqux", "foo**2", "km"):
             try:
